@@ -143,6 +143,28 @@ lay_reported_tables_exist(ldb_t *db, const char *dbdir, char *err, size_t en) {
   return 1;
 }
 
+/* C17 (fault stage): CURRENT, if present, names a MANIFEST that exists. 1 = fine, 0 = dangling (err set) */
+int
+lay_current_names_existing_manifest(const char *dbdir, char *err, size_t en) {
+  const vinode_t *cur = file_of(dbdir, "CURRENT");
+  char name[128];
+  size_t l;
+  if (!cur)
+    return 1;   /* no CURRENT at all: a database that was never completely created */
+  if (cur->len < 2 || cur->len > 100 || cur->data[cur->len - 1] != '\n') {
+    snprintf(err, en, "CURRENT is malformed (%zu bytes)", cur->len);
+    return 0;
+  }
+  l = cur->len - 1;
+  memcpy(name, cur->data, l);
+  name[l] = 0;
+  if (!file_of(dbdir, name)) {
+    snprintf(err, en, "CURRENT names %s, which does not exist", name);
+    return 0;
+  }
+  return 1;
+}
+
 /* C13 (fault stage): every table named by the fold of the MANIFEST that CURRENT names exists.
  * 1 = yes, 0 = one is missing (err set), -1 = the MANIFEST does not decode cleanly (no verdict) */
 int
